@@ -54,4 +54,34 @@ static inline int h_pool_blocked(ABT_pool p)
     return (int)(int32_t)(uint32_t)(tot - sz);
 }
 
+/* Global invariant "the blocked count of a pool is never negative" (C06), for
+ * drivers that include abti.h before this header: the engine evaluates it in
+ * the state after every hooked write inside the exploration window.  Watched
+ * pools must stay allocated until abtmc_window_end(). */
+#ifdef ABTI_H_INCLUDED
+static ABT_pool h_watched_[8];
+static int h_nwatched_;
+static void h_inv_blocked_nonneg_(void)
+{
+    for (int i = 0; i < h_nwatched_; i++) {
+        int v = (int)ABTD_atomic_relaxed_load_int32(
+            &ABTI_pool_get_ptr(h_watched_[i])->num_blocked);
+        abtmc_check(v >= 0, "blocked_negative",
+                    "global invariant: the blocked count of watched pool #%d is %d "
+                    "in the state after a write", i, v);
+    }
+}
+static inline void h_watch_pool(ABT_pool p)
+{
+    if (p == ABT_POOL_NULL)
+        return;
+    for (int i = 0; i < h_nwatched_; i++)
+        if (h_watched_[i] == p)
+            return;
+    if (h_nwatched_ < 8)
+        h_watched_[h_nwatched_++] = p;
+    abtmc_set_invariant(h_inv_blocked_nonneg_);
+}
+#endif
+
 #endif
